@@ -13,6 +13,13 @@ def merge(merge_expr: exp.Expression) -> list[exp.Expression]:
     return [_create_merge_candidates(merge_expr), *_mutations(merge_expr), _counts(merge_expr)]
 
 
+def _alias_or_name(table: exp.Expression) -> exp.Identifier:
+    """The identifier used to refer to the columns of a table or subquery, ie: its alias if it has one."""
+    ident = alias.this if (alias := table.args.get("alias")) else table.this
+    assert isinstance(ident, exp.Identifier)
+    return ident
+
+
 def _create_merge_candidates(merge_expr: exp.Merge) -> exp.Expression:
     """
     Given a merge statement, produce a temporary table that joins together the target and source tables.
@@ -22,8 +29,7 @@ def _create_merge_candidates(merge_expr: exp.Merge) -> exp.Expression:
 
     source = merge_expr.args.get("using")
     assert isinstance(source, exp.Expression)
-    source_id = (alias := source.args.get("alias")) and alias.this if isinstance(source, exp.Subquery) else source.this
-    assert isinstance(source_id, exp.Identifier)
+    source_id = _alias_or_name(source)
 
     join_expr = merge_expr.args.get("on")
     assert isinstance(join_expr, exp.Binary)
@@ -78,7 +84,7 @@ def _create_merge_candidates(merge_expr: exp.Merge) -> exp.Expression:
             insert_values = then.expression.expressions
             values.update([str(c) for c in insert_values if isinstance(c, exp.Column)])
             predicate = f"AND {condition}" if condition else ""
-            case_when_clauses.append(f"WHEN {target_tbl}.rowid is NULL {predicate} THEN {w_idx}")
+            case_when_clauses.append(f"WHEN {_alias_or_name(target_tbl)}.rowid is NULL {predicate} THEN {w_idx}")
 
     sql = f"""
     CREATE OR REPLACE TEMPORARY TABLE merge_candidates AS
@@ -103,8 +109,13 @@ def _mutations(merge_expr: exp.Merge) -> list[exp.Expression]:
     """
     target_tbl = merge_expr.this
     source = merge_expr.args.get("using")
-    source_tbl = source.alias if isinstance(source, exp.Subquery) else source
+    assert isinstance(source, exp.Expression)
+    # merge_candidates stands in for the source, under the name the statement uses for the source's columns
+    source_tbl = _alias_or_name(source)
     join_expr = merge_expr.args.get("on")
+    # the target of an insert can't have an alias
+    insert_tbl = target_tbl.copy()
+    insert_tbl.set("alias", None)
 
     statements: list[exp.Expression] = []
 
@@ -146,7 +157,7 @@ def _mutations(merge_expr: exp.Merge) -> list[exp.Expression]:
             columns = f"({', '.join(cols)})" if cols else ""
             values = ", ".join(map(str, then.expression.expressions))
             insert_sql = f"""
-                INSERT INTO {target_tbl} {columns}
+                INSERT INTO {insert_tbl} {columns}
                 SELECT {values}
                 FROM merge_candidates AS {source_tbl}
                 WHERE {source_tbl}.merge_op = {w_idx}
